@@ -227,6 +227,14 @@ def run(ctx):
                 c = app(path, cyc, g=g_, env=e_, cfg=cfg_, disk=True, kind='%s maxdepth=%d via %s on a cyclic book' % (' '.join(path), depth, src), exact=False)
                 c.meta['style'] = 'deep'
                 cases.append(c)
+    # category paths far deeper than any indentation anyone planned for
+    for depth in (16, 17, 18, 33, 64, 100, 101, 102, 150, 300):
+        deep_name = '/'.join('l%d' % (i % 7) for i in range(depth)).encode()
+        dfiles = {b'food.yaml': b'x:\n  calories: 2\n', b'log.yaml': b'2021/01/24:\n  ' + deep_name + b': 1\n  ' + deep_name + b'/x: 2\n  x: 1\n'}
+        for path, sw in ((['bal'], {}), (['bal'], {'collapse': True}), (['bal'], {'collapseLast': True}), (['bal'], {'singleElement': 'calories'}), (['reg'], {}), (['report', 'quantity'], {})):
+            c = app(path, dfiles, s=sw, kind='%s %s, a category path of %d levels' % (' '.join(path), '+'.join(sw), depth))
+            c.meta['style'] = 'deep category path'
+            cases.append(c)
     # a failing output under a report of several buffers: an error, never a crash
     bigbook = g.book(depth=1, exact=True, per_layer=120, unusual=0.1)
     biglog = g.log(book=bigbook, exact=True, days=60, max_entries=6, unusual=0.1)
